@@ -5,6 +5,16 @@ HERE = os.path.dirname(os.path.abspath(__file__))
 
 # id -> (implemented, engine, level, technique, text, note, design_ref)
 CHECKS = {
+ "C13": (True, "chain13", "model_checking",
+   "explicit-state BFS over add/remove requests (one defect per request) on the real tracker of a real node, independent accept/reject prediction, atomicity + follow-up probe",
+   "All sequences of valid and single-defect add/remove requests (wrong previous hash, insufficient work, changed bits, proof for another block, wrong filter header / height in the attestation, untrusted key, too few or duplicated oracles, forged attestation signature, omitted spend, non-streamed full-block proof; wrong previous header / filter header on removal) over blocks that are empty, confirm the watched funding txid or spend a watched outpoint, with 0-4 trusted oracles, compact and streamed delivery and restarts, until closure. Accepting a defective request, changing any state on rejection, or failing the correct request afterwards is a violation.",
+   "Real regtest headers and txoo proofs built by the harness; chain of <= 3 (4) blocks above genesis; retarget boundaries are not reached through the node API (see DESIGN).",
+   "6.1"),
+ "C14": (True, "chainmc", "model_checking",
+   "explicit-state BFS over connect/disconnect paths through AddBlock/RemoveBlock/BlockChunk on a real node; differential oracle against a fresh signer that connects only the best chain",
+   "Every connect/disconnect path (blocks = every UTXO-valid ordered subset of <= 2 (3) menu transactions: funding with two inputs, two double-spends, mutual close, holder / counterparty / revoked commitment, sweep, first- and second-level HTLC spends) with chains of <= 3 (4) blocks, compact and streamed delivery, closes; after every transition the monitor state, chain state, listen slot and header window must equal those of a fresh signer fed only the surviving chain; a panic is a violation.",
+   "Channel prepared through the public API at commitment 1 on both sides with one offered and one received HTLC (preimage known).",
+   "6.2"),
  "C01": (True, "chanfsm", "model_checking",
    "replay-based explicit-state BFS over the real ChannelHandler/Channel with a ghost reference monitor (closes under a counter cap)",
    "All request histories of one channel over ~45 letters (GetPerCommitmentPoint[2], ValidateCommitmentTx[2] with valid/invalid/other-content signatures, RevokeCommitmentTx, SignLocalCommitmentTx2, SignCommitmentTx, core get_per_commitment_secret[_or_none], revoke_previous_holder_commitment, activate, recovery/redundant signing, mutual close, restart) at commitment numbers relative to the live counters, for protocol versions 4, 5, 6, until the canonical state set closes. A ghost monitor scans every reply for the channel's BOLT-3 secrets and requires an earlier accepted validate of n+1 with signatures valid by construction.",
